@@ -72,14 +72,22 @@ func reloadOrder(sc *Scenario, o *Outcome) *props.Verdict {
 
 // oracleC15: IOS reload guard and banner robustness (metamorphic against
 // the same run without banners).
-func oracleC15(c *props.Case) props.Verdict {
+func oracleC15(c *props.Case) (verdict props.Verdict) {
+	knownSig := ""
+	defer func() {
+		if knownSig != "" && verdict.Status == props.Fail {
+			verdict.Sig = knownSig
+		}
+	}()
 	sc, err := ScenarioOf(c)
 	if err != nil {
 		return props.DiscardV("bad scenario")
 	}
-	plain := *sc
-	plain.Banners = nil
-	ref := Execute(&plain)
+	// Clean run: fixes the number of change commands, to which banner and
+	// fault positions refer.
+	clean := *sc
+	clean.Banners, clean.Faults = nil, nil
+	ref := Execute(&clean)
 	if ref.Harness != nil || len(ref.Lines) == 0 {
 		return props.DiscardV("harness")
 	}
@@ -93,22 +101,82 @@ func oracleC15(c *props.Case) props.Verdict {
 	if len(sc.Banners) == 0 || nChg == 0 {
 		return props.PassV(false, "c15:no-banner")
 	}
+	// Optionally the device rejects one change command (fault indexed by
+	// change position): the run with banners must then fail in the same way
+	// as the run without.
+	faultChg := -1
+	if len(sc.Faults) > 0 && sc.Faults[0].Chg != nil {
+		faultChg = *sc.Faults[0].Chg % nChg
+		if c.Params["rel"] == "-1j" {
+			// the rejected command is the second half of a two-command packet
+			jm := joinedOf(sc, ref)
+			var cand []int
+			idx := -1
+			for i, l := range ref.Lines {
+				if l.Class != "change" {
+					continue
+				}
+				idx++
+				if i > 0 && ref.Lines[i-1].Class == "change" && jm.has(ref.Lines[i-1].Text, l.Text) {
+					cand = append(cand, idx)
+				}
+			}
+			if len(cand) > 0 {
+				faultChg = cand[*sc.Faults[0].Chg%len(cand)]
+			}
+		}
+		sc.Faults = []FaultSpec{{Kind: sc.Faults[0].Kind, Chg: &faultChg}}
+		plain := *sc
+		plain.Banners = nil
+		ref = Execute(&plain)
+		if ref.Harness != nil || len(ref.Lines) == 0 {
+			return props.DiscardV("harness")
+		}
+		if ref.TimeoutNoise() {
+			return props.DiscardV("timeout-under-load")
+		}
+		if v := reloadOrder(sc, ref); v != nil {
+			return *v
+		}
+	} else {
+		sc.Faults = nil
+	}
 	// place banners on existing change commands
 	// (at most one banner per command: the device prints the 2:00 and the
 	// 1:00 warning a minute apart)
 	var bl []BannerSpec
 	seen := map[int]bool{}
-	for _, b := range sc.Banners {
+	for i, b := range sc.Banners {
 		b.Chg = b.Chg % nChg
+		if i == 0 && faultChg >= 0 {
+			// "rel": first banner on the rejected command or the one before it
+			switch c.Params["rel"] {
+			case "0":
+				b.Chg = faultChg
+			case "-1", "-1j":
+				if faultChg > 0 {
+					b.Chg = faultChg - 1
+				}
+			}
+		}
+		if b.Chg > faultChg && faultChg >= 0 {
+			continue // never reached
+		}
 		if !seen[b.Chg] {
 			seen[b.Chg] = true
 			bl = append(bl, b)
 		}
 	}
+	if len(bl) == 0 {
+		return props.PassV(false, "c15:no-banner")
+	}
 	sc.Banners = bl
 	o := Execute(sc)
 	if o.Harness != nil {
 		return props.DiscardV("harness")
+	}
+	if c15Debug != nil {
+		c15Debug(sc, ref, o)
 	}
 	if o.TimeoutNoise() {
 		// A time-out may be load noise or the effect of the banner; the
@@ -119,14 +187,36 @@ func oracleC15(c *props.Case) props.Verdict {
 			return props.DiscardV("harness")
 		}
 	}
-	f39 := isF39(sc, ref)
+	// Known findings F39 / F42 are recognised by the shape of the scenario
+	// (a banner at the first of two commands sent in one packet) together
+	// with their symptom (the run with banners loses synchronisation: time-out,
+	// unexpected echo, or the leftover of an answer taken for output).
+	all := o.Run.Stdout + o.Run.Stderr
+	symptom := o.Run.Exit != 0 && (strings.Contains(all, "timer expired") || strings.Contains(all, "unexpected echo") || strings.Contains(all, "Got unexpected output"))
+	if symptom {
+		switch {
+		case isF39(sc, ref):
+			knownSig = sigF39
+		case isF42(sc, ref):
+			knownSig = sigF42
+		}
+	}
+	f39 := knownSig != ""
 	if v := reloadOrder(sc, o); v != nil {
 		if f39 {
-			v.Sig = sigF39
+			v.Sig = knownSig
 		}
 		return *v
 	}
 	var classes []string
+	if faultChg >= 0 {
+		classes = append(classes, "c15:with-rejected-command")
+		for _, b := range sc.Banners {
+			if b.Chg == faultChg-1 && b.Kind == "0:01:00" {
+				classes = append(classes, "c15:one-minute-banner-before-rejected-command")
+			}
+		}
+	}
 	for _, b := range sc.Banners {
 		classes = append(classes, "c15:"+b.Form+":"+b.Kind)
 		if b.Split {
@@ -137,7 +227,7 @@ func oracleC15(c *props.Case) props.Verdict {
 		return fmt.Sprintf("banners: %+v\n=== with banners\n%s\n=== without banners\n%s", sc.Banners, o.Summary(), ref.Summary())
 	}
 	if o.Run.Exit != ref.Run.Exit && f39 {
-		return props.FailV(sigF39, "exit status %d with banners, %d without\n%s", o.Run.Exit, ref.Run.Exit, ctx())
+		return props.FailV(knownSig, "exit status %d with banners, %d without\n%s", o.Run.Exit, ref.Run.Exit, ctx())
 	}
 	if o.Run.Exit != ref.Run.Exit {
 		return props.FailV("ios:banner-changes-exit-status", "exit status %d with banners, %d without\n%s", o.Run.Exit, ref.Run.Exit, ctx())
@@ -183,6 +273,9 @@ func oracleC15(c *props.Case) props.Verdict {
 	return props.PassV(true, classes...)
 }
 
+// c15Debug, if set (debug test only), sees both runs of the oracle.
+var c15Debug func(sc *Scenario, ref, o *Outcome)
+
 const sigF39 = "ios:F39-banner-after-echo-of-first-joined-command-drains-second-answer"
 
 // isF39 recognises the scenario shape of known finding F39: a banner
@@ -203,6 +296,33 @@ func isF39(sc *Scenario, ref *Outcome) bool {
 		}
 		for _, b := range sc.Banners {
 			if b.Chg == idx && (b.Form == "after" || b.Form == "after-prompt" || b.Form == "inside" && b.Offset >= len(l.Text)) {
+				return true
+			}
+		}
+	}
+	return false
+}
+
+const sigF42 = "ios:F42-banner-before-first-joined-command-extra-prompt-wait-swallows-second-answer"
+
+// isF42 recognises the shape of known finding F42: a banner in front of the
+// echo of the first of two commands sent in one packet. The tool then waits
+// for "another prompt" with a pattern anchored at the end of the received
+// text (`[#] ?$`); the echo and prompt of the second command may already
+// follow, so the wait consumes both answers and the second check times out.
+func isF42(sc *Scenario, ref *Outcome) bool {
+	joined := joinedOf(sc, ref)
+	idx := -1
+	for _, l := range ref.Lines {
+		if l.Class != "change" {
+			continue
+		}
+		idx++
+		if len(joined[l.Text]) == 0 {
+			continue
+		}
+		for _, b := range sc.Banners {
+			if b.Chg == idx && b.Form == "before" {
 				return true
 			}
 		}
